@@ -361,7 +361,13 @@ func c14Run(r *vc.Run, w *world.World, ch *vc.Child, ctl *c14Ctl, sc *c14Scenari
 			case "dup-race":
 				body, _ := wire.Encode(m)
 				raw := wire.EncodeFrame(&wire.Frame{Version: 1, Type: wire.FrameResponse, Codec: 1, ID: q.Frame.ID, Body: body})
-				q.S.WriteRaw(append(append([]byte{}, raw...), raw...))
+				// 2..8 copies of the reply in one write: the client's task pool works on them at the same time
+				copies := 2 + (k*5+i)%7
+				var burst []byte
+				for n := 0; n < copies; n++ {
+					burst = append(burst, raw...)
+				}
+				q.S.WriteRaw(burst)
 			default:
 				q.S.Reply(q.Frame.ID, m)
 			}
